@@ -1447,6 +1447,23 @@ def find_const(repo, relpath, name):
     return None
 
 
+def find_type_alias(repo, relpath, name):
+    """the text of a module-level `type NAME = T;` in a source file, or None"""
+    try:
+        toks = tokenize(open(resolve_source(repo, relpath), encoding="utf-8").read())
+    except (OSError, LostAnchor):
+        return None
+    for i in range(len(toks) - 3):
+        if toks[i].s == "type" and toks[i + 1].s == name and toks[i + 2].s == "=":
+            j = i
+            while j < len(toks) and toks[j].s != ";":
+                j += 1
+            seg = [Tok(t.ws, t.s, t.line) for t in toks[i:j + 1]]
+            seg[0].ws = ""
+            return "pub " + render(seg).strip()
+    return None
+
+
 def find_outer_let(repo, relpath, steps, name, before_line):
     """the last `let NAME = EXPR;` / `let NAME: T = EXPR;` (immutable binding, any nesting depth) of the located
     function that ends before source line `before_line`, or None.  Used to follow a reference from a lifted block
